@@ -428,7 +428,9 @@ impl<H: Hasher> VectorCommitment<H> for MerkleTree<H> {
     }
 
     fn get_multiproof_domain_len(proof: &Self::MultiProof) -> usize {
-        1 << proof.depth
+        // the depth of an untrusted proof may exceed what a usize can index; such a proof
+        // cannot describe any domain, which is reported as a domain of length zero
+        1_usize.checked_shl(proof.depth as u32).unwrap_or(0)
     }
 
     fn open(&self, index: usize) -> Result<(H::Digest, Self::Proof), Self::Error> {
